@@ -3,6 +3,8 @@
 HOOK_COMMITS = ["8eb6fb7e966ea020d53ffa53eb464d5e25f195d3"]
 
 ENGINES = [
+    dict(name="placement", path="harness/cmd/h/eng_placement.go", serves_properties=["C16"],
+         kind_free_text="exhaustive sweep N<=16,R<=8,P in {1,2,7,64} + multi-step membership histories on the real Allocator/Conn; validity predicate evaluated by the Lean driver; aliasing and independence oracle"),
     dict(name="partition", path="harness/cmd/h/eng_partition.go", serves_properties=["C02", "C04"],
          kind_free_text="differential: real partition state machine (marshalled entries) vs finite-map specification and graph model; snapshot/restore at every cut; reference-map oracle"),
     dict(name="hnsw", path="harness/cmd/h/eng_hnsw.go", serves_properties=["C01", "C07"],
@@ -28,6 +30,11 @@ META = {
         technique="Lean 4 proof (determinism corollaries of the refinement: outcomes and contents are functions of the abstract map; snapshot = reload preserves the refinement) + multi-replica differential run with restore at every cut",
         text="replicas_agree / snapshot_cut / restart_replay (lean/Anndb/Props/C04.lean): any two replicas related to the same map — differing in queue implementation, metric, parameters, fallback choice and graph — report the same outcome for every entry and hold the same contents and counters; restoring a snapshot taken at any cut and applying the suffix equals applying the whole log. Engine partition feeds byte-identical marshalled entries to real stand-alone partitions, restoring the real snapshot at every cut into fresh and used replicas, and compares outcomes, contents and counters pairwise and against the model.",
         note="Trusted: as C02; Hnsw.Save/Load's byte format is C08's subject — here its effect on the state is Index.reload, and the real Save/Load is exercised at every cut.",
+    ),
+    "C16": dict(
+        technique="Lean 4 proof over an oracle-permutation model of the shuffle (count, distinctness, membership, independence; aliasing variant refuted) + regenerated shape facts + exhaustive sweep of the real allocator",
+        text="place_len / place_nodup / place_members / place_independent (lean/Anndb/Props/C16.lean) hold for every member list, R, partition count and every family of shuffles (the shuffle is an oracle permutation); alias_all_equal proves that the re-slicing variant puts every partition on the same nodes. code_copies_prefix and code_nodeids_fresh are regenerated from storage/allocator.go and cluster/conn.go on every run. Engine placement sweeps all N<=16, R<=8, P in {1,2,7,64} and random join/leave/place histories on the real Allocator and Conn; the Lean driver evaluates the model's validity predicate on every observed placement and the oracle checks aliasing (backing-array addresses) and independence.",
+        note="Trusted: Lean kernel; rand.Shuffle yields a permutation; goextract's reading of the two functions. The distribution tests are tests, not theorems.",
     ),
     "C19": dict(
         technique="Lean 4 proof (heap invariant by induction over op sequences; bag refinement) + exact differential tie to utils.PriorityQueue + regenerated shape fact",
